@@ -62,10 +62,11 @@ pub fn cfgs(thorough: bool) -> Vec<Cfg> {
         Cfg::base().with_self(&[srv4()]).with_deny(&[deny4()]),
         Cfg::base().with_self(&[srv6()]).with_deny(&[deny6()]),
         Cfg::base().with_self(&self_ips()).with_deny(&deny_ips()),
+        // each list alone (S absent with D present, and conversely)
+        Cfg::base().with_deny(&deny_ips()),
+        Cfg::base().with_self(&self_ips()),
     ];
     if thorough {
-        v.push(Cfg::base().with_self(&self_ips()));
-        v.push(Cfg::base().with_deny(&deny_ips()));
         v.push(Cfg::base().with_self(&[srv4b(), srv6b()]).with_deny(&[deny6()]));
         let mut c = Cfg::base().with_self(&[srv4(), srv6()]);
         c.mac = [0x02, 0x11, 0x22, 0x33, 0x44, 0x55];
